@@ -71,17 +71,18 @@ Print Assumptions safe_extract_commonprefix_refuted.
 
 (** [pp_sym_passes_weighted] (Gen/ParseCalls.v) records whether from_edge_array calls
     [directed2undirected(matrix, weighted=weighted)] (true) or [directed2undirected(matrix)] (false);
-    the model follows it.
+    the model follows it. Obligation over the generated term: the flag is handed over. *)
+Theorem from_edge_array_passes_weighted : pp_sym_passes_weighted = true.
+Proof. reflexivity. Qed.
+Print Assumptions from_edge_array_passes_weighted.
 
-    For every identifier type with a decidable equality, every integer reading [as_int] that is
-    injective, every [unique] oracle returning the distinct values with their inverse map, all flag
+(** For every identifier type with a decidable equality, every integer reading [as_int] that is
+    injective, every [unique] oracle returning the distinct values with their inverse map, ALL flag
     combinations, all edge arrays and integer weights: entry (i, j) of the matrix built by
     from_edge_array / from_edge_list is the sum of the weights listed for edge (names[i], names[j])
     (the first one only if sum_duplicates is off; 1 iff some non-zero weight is listed if weighted
     is off), plus the reverse direction when the graph is undirected (still binary when unweighted);
-    a biadjacency matrix is indexed by row names and column names separately.
-    Unless the call hands over [weighted], the combination "unweighted, undirected, some edge listed
-    in both directions" is excluded: see [unweighted_undirected_binary_refuted]. *)
+    a biadjacency matrix is indexed by row names and column names separately. *)
 Theorem edge_array_entry {id : Type} (ideqb : id -> id -> bool) (as_int : id -> option nat)
         (unique : list id -> list id * list nat)
         (fl : flags) (edge_array : list (id * id)) (weights : option (list Z)) (d : dataset) :
@@ -89,31 +90,33 @@ Theorem edge_array_entry {id : Type} (ideqb : id -> id -> bool) (as_int : id -> 
   (forall a b k, as_int a = Some k -> as_int b = Some k -> a = b) ->
   unique_ok ideqb unique ->
   from_edge_array ideqb as_int unique pp_sym_passes_weighted fl edge_array weights = Some d ->
-  (pp_sym_passes_weighted = true \/
-   weighted fl = true \/ directed fl = true \/ bipartite fl = true \/
-   has_reciprocal ideqb (raw_edges edge_array weights) = false) ->
   forall i j, entry (d_matrix d) i j =
               spec_entry ideqb as_int fl (row_names d) (col_names d) (raw_edges edge_array weights) i j.
 Proof.
-  exact (fun H1 H2 H3 => from_edge_array_entry ideqb as_int unique pp_sym_passes_weighted H1 H2 H3 fl edge_array weights d).
+  exact (fun H1 H2 H3 H => from_edge_array_entry ideqb as_int unique pp_sym_passes_weighted H1 H2 H3
+                             fl edge_array weights d H (or_introl from_edge_array_passes_weighted)).
 Qed.
 Print Assumptions edge_array_entry.
 
-(** With [weighted] handed over to directed2undirected the specification holds for all flag combinations. *)
-Theorem edge_array_entry_when_weighted_is_passed {id : Type} (ideqb : id -> id -> bool) (as_int : id -> option nat)
+(** The legacy call [directed2undirected(matrix)] (code before the repair) meets the specification only
+    outside the combination "unweighted, undirected, some edge listed in both directions"; the
+    exclusion is necessary, see [unweighted_undirected_binary_refuted]. *)
+Theorem edge_array_entry_legacy_call {id : Type} (ideqb : id -> id -> bool) (as_int : id -> option nat)
         (unique : list id -> list id * list nat)
         (fl : flags) (edge_array : list (id * id)) (weights : option (list Z)) (d : dataset) :
   (forall a b, ideqb a b = true <-> a = b) ->
   (forall a b k, as_int a = Some k -> as_int b = Some k -> a = b) ->
   unique_ok ideqb unique ->
-  from_edge_array ideqb as_int unique true fl edge_array weights = Some d ->
+  from_edge_array ideqb as_int unique false fl edge_array weights = Some d ->
+  (weighted fl = true \/ directed fl = true \/ bipartite fl = true \/
+   has_reciprocal ideqb (raw_edges edge_array weights) = false) ->
   forall i j, entry (d_matrix d) i j =
               spec_entry ideqb as_int fl (row_names d) (col_names d) (raw_edges edge_array weights) i j.
 Proof.
-  exact (fun H1 H2 H3 H => from_edge_array_entry ideqb as_int unique true H1 H2 H3 fl edge_array weights d H
-                             (or_introl eq_refl)).
+  exact (fun H1 H2 H3 H Hex => from_edge_array_entry ideqb as_int unique false H1 H2 H3
+                                 fl edge_array weights d H (or_intror Hex)).
 Qed.
-Print Assumptions edge_array_entry_when_weighted_is_passed.
+Print Assumptions edge_array_entry_legacy_call.
 
 (** What the code computes in every case (no exclusion). *)
 Theorem edge_array_entry_as_coded {id : Type} (ideqb : id -> id -> bool) (as_int : id -> option nat)
